@@ -205,6 +205,67 @@ theorem lookup_erase_ne (m : List (K × V)) (k j : K) (hne : ord j ≠ ord k) :
     · simp only [SMap.lookup, List.find?_cons] at ih ⊢
       rw [ih]
 
+/-! the reference map is a map: a removed key is gone, and `len` moves by one exactly when the key set changes -/
+/-- after `remove(k)` the key is absent (a sorted map holds a key at most once) -/
+theorem lookup_erase_self (m : List (K × V)) (k : K) (hs : SMap.Sorted m) : SMap.lookup (SMap.erase m k) k = none := by
+  induction m with
+  | nil => simp [SMap.lookup, SMap.erase]
+  | cons a m ih =>
+    obtain ⟨ak, av⟩ := a
+    have hs' := List.pairwise_cons.1 hs
+    simp only [SMap.erase]
+    by_cases h1 : ord ak = ord k
+    · simp only [h1, if_true]
+      simp only [SMap.lookup, List.find?_eq_none]
+      intro p hp
+      have := hs'.1 p hp
+      simp at this ⊢; omega
+    · have e : (ord ak == ord k) = false := by simp [h1]
+      simp only [h1, if_false, SMap.lookup, List.find?_cons, e]
+      exact ih hs'.2
+
+/-- `len` moves by exactly one when, and only when, the key set changes -/
+theorem length_insert (m : List (K × V)) (k : K) (v : V) (hs : SMap.Sorted m) :
+    (SMap.insert m k v).length = if (SMap.lookup m k).isSome then m.length else m.length + 1 := by
+  induction m with
+  | nil => simp [SMap.lookup, SMap.insert]
+  | cons a m ih =>
+    obtain ⟨ak, av⟩ := a
+    have hs' := List.pairwise_cons.1 hs
+    simp only [SMap.insert]
+    by_cases h1 : ord k < ord ak
+    · have e : (ord ak == ord k) = false := by simp; omega
+      have hn : SMap.lookup m k = none := by
+        simp only [SMap.lookup, List.find?_eq_none]
+        intro p hp; have := hs'.1 p hp; simp at this ⊢; omega
+      simp only [SMap.lookup] at hn
+      simp [h1, SMap.lookup, List.find?_cons, e, hn]
+    · by_cases h2 : ord k = ord ak
+      · have e : (ord ak == ord k) = true := by simp [h2]
+        simp [h1, h2, SMap.lookup, List.find?_cons]
+      · have e : (ord ak == ord k) = false := by simp; omega
+        simp only [h1, h2, if_false, List.length_cons, ih hs'.2, SMap.lookup, List.find?_cons, e]
+        split <;> rename_i hh <;> simp [hh]
+
+theorem length_erase (m : List (K × V)) (k : K) :
+    (SMap.erase m k).length = if (SMap.lookup m k).isSome then m.length - 1 else m.length := by
+  induction m with
+  | nil => simp [SMap.lookup, SMap.erase]
+  | cons a m ih =>
+    obtain ⟨ak, av⟩ := a
+    simp only [SMap.erase]
+    by_cases h1 : ord ak = ord k
+    · have e : (ord ak == ord k) = true := by simp [h1]
+      simp [h1, SMap.lookup, List.find?_cons]
+    · have e : (ord ak == ord k) = false := by simp [h1]
+      simp only [h1, if_false, List.length_cons, ih, SMap.lookup, List.find?_cons, e]
+      split
+      · rename_i hh
+        have : m.length ≠ 0 := by
+          intro h0; have := List.eq_nil_of_length_eq_zero h0; subst this; simp at hh
+        simp only [hh, if_true]; omega
+      · rename_i hh
+        simp [hh]
 theorem lookup_adjust_ne (m : List (K × V)) (k j : K) (v : V) (hne : ord j ≠ ord k) :
     SMap.lookup (SMap.adjust m k v) j = SMap.lookup m j := by
   induction m with
